@@ -8,6 +8,7 @@ import (
 	"strconv"
 	"strings"
 
+	"github.com/gobwas/httphead"
 	"github.com/gobwas/ws"
 	"github.com/gobwas/ws/wsflate"
 )
@@ -27,6 +28,13 @@ func init() {
 	r8Wrap("C03", r8C03)
 	r8Wrap("C12", r8C12)
 	r8Wrap("C06", r8C06)
+	r8Wrap("C13", r8C13)
+	r8Wrap("C14", r8C14)
+	r8Wrap("C17", r8C14)
+	replayers["C14A"] = func(c *ctx, in []string) {
+		a := func(i int) int { v, _ := strconv.Atoi(in[i]); return v }
+		c14A(c, c14cfg{snct: a(0) == 1, cnct: a(1) == 1, s: a(2), c: a(3)}, string(unhx(in[4])))
+	}
 	r8Wrap("C16", r8C12)
 	replayers["C12WT"] = func(c *ctx, in []string) {
 		k, _ := strconv.Atoi(in[1])
@@ -208,6 +216,63 @@ func r8C06(c *ctx) {
 				runWH(c, "WH", cfg, "r5/1/-/"+d+",fl,r0/2/-/"+d+",fl", "-")
 				runWH(c, "WH", cfg, "w2/1,r300/2/-/"+d+",fl,r0/3/-/"+d+",r4/4/-/"+d+",fl", "-")
 			}
+		}
+	}
+}
+
+// r8-C13b: a writer that carried a compressing extension, handed to another owner through Reset / the pool, who attaches
+// nothing: its messages carry no RSV1 (the W18 comparison with a fresh writer, so far under C18 only, also under C13)
+func r8C13(c *ctx) {
+	for _, p := range []struct {
+		ctor  string
+		state byte
+	}{{"s125", 1}, {"s125", 2}, {"u132", 1}, {"u136", 2}} {
+		for _, mode := range []string{"reset", "pool"} {
+			cfg := wcfg{p.ctor, p.state | 4, 1, "1"}
+			runW18(c, cfg, "w3/1,fl", "-", mode, p.state, 1, "w3/1,fl,w200/2,fl")
+			runW18(c, cfg, "w3/1,ff,w2/2", "-", mode, p.state, 2, "w5/1,ff,w5/2,fl")
+		}
+	}
+}
+
+// r8-C14: the answer of Negotiate must not live in the OFFER's memory (the caller - the Upgrader's read buffer - reuses
+// it before the response is written).  C14A <cfg> <offer> -> <accepted 0|1> <answer before> <answer after the offer's
+// memory was overwritten>
+func c14A(c *ctx, g c14cfg, offer string) {
+	buf := []byte(offer)
+	opts, ok := httphead.ParseOptions(buf, nil) // zero copy: the options point into buf
+	if !ok || len(opts) == 0 {
+		return
+	}
+	e := wsflate.Extension{Parameters: g.params()}
+	ans, err := e.Negotiate(opts[0])
+	enc := func(o httphead.Option) string {
+		var b bytes.Buffer
+		httphead.WriteOptions(&b, []httphead.Option{o})
+		return hx(b.Bytes())
+	}
+	before := "-"
+	if err == nil {
+		before = enc(ans)
+	}
+	for i := range buf {
+		buf[i] = 'c'
+	}
+	after := "-"
+	if err == nil {
+		after = enc(ans)
+	}
+	c.emit("C14A %s %s -> %d %s %s", g, hx([]byte(offer)), b2i(err == nil), before, after)
+}
+
+func r8C14(c *ctx) {
+	cfgs := []c14cfg{{}, {snct: true}, {cnct: true}, {s: 10}, {c: 12}, {snct: true, cnct: true, s: 9, c: 15}}
+	offers := []string{"permessage-deflate", "permessage-deflate; server_no_context_takeover", "permessage-deflate; client_no_context_takeover",
+		"permessage-deflate; server_max_window_bits=10", "permessage-deflate; client_max_window_bits=12", "permessage-deflate; client_max_window_bits",
+		"permessage-deflate; server_no_context_takeover; client_no_context_takeover; server_max_window_bits=9; client_max_window_bits=15"}
+	for _, g := range cfgs {
+		for _, o := range offers {
+			c14A(c, g, o)
 		}
 	}
 }
